@@ -125,7 +125,8 @@ class Antenna(object):
         else:
             samples = [[self.x.get_samples(num_samples)]]
             
-        self.t_start += num_samples * self.dt
+        # The antenna's clock is its streams' clock (which counts samples, not rounded increments)
+        self.t_start = self.x.t_start
         self.start_obs = False
         
         return xp.array(samples)
@@ -310,7 +311,12 @@ class MultiAntennaArray(object):
                 antenna.bg_cache[1] = self.bg_y.v[bg_num_samples-antenna.delay:]
                 antenna.y.v = antenna.y.v + bg_y_v
                 
-        self.t_start += num_samples * self.dt
+        # The array's clock (and each member antenna's) is the antenna streams' clock, which 
+        # counts samples rather than accumulating rounded increments
+        for antenna in self.antennas:
+            antenna.t_start = antenna.x.t_start
+            antenna.start_obs = False
+        self.t_start = self.antennas[0].x.t_start
         self.start_obs = False
         
         if self.num_pols == 2:
